@@ -378,7 +378,12 @@ def runBindModel (a : CaseAcc) : List String :=
       let zs := sortNat (dedup ((bo.slots.zskip.lookup f.pos).getD []))
       let zi := sortNat (dedup ((bo.slots.zinner.lookup f.pos).getD []))
       some s!"{f.c.id}:{fmtTys zs}:{fmtTys zi}"
+    -- the dependency lists after the final flow computation, as provider ids
+    let idAt := fun (p : Nat) => (bo.chain.get p).c.id
+    let fmtIds := fun (l : List Nat) => if l.isEmpty then "-" else ",".intercalate (l.map fun p => toString (idAt p))
+    let ul := bo.chain.map fun f => s!"{f.c.id}:{fmtIds f.uses}:{fmtIds f.usedBy}"
     [ "m5 ok " ++ " ".intercalate fl,
+      "m5u " ++ " ".intercalate ul,
       s!"m6 vcount={bo.slots.st.count} d={fmtTys (sortNat (bo.slots.st.dmap.map (·.1)))} u={fmtTys (sortNat (bo.slots.st.umap.map (·.1)))} z " ++ " ".intercalate zl ]
 
 def classOfStr (s : String) : ClassT :=
